@@ -432,7 +432,19 @@ func endsWithEscape(raw string) bool {
 	return false
 }
 
-const sigAfterEscape = "whitespace dropped after an identifier that ends in a backslash escape"
+const sigAfterEscape = "backslash escape outside a string is not recognised (whitespace after or inside it is treated as ordinary whitespace)"
+
+// hasEscapedWhitespace reports whether raw contains a backslash directly
+// followed by a whitespace character (an escaped space, legal in identifiers
+// and unquoted urls).
+func hasEscapedWhitespace(raw string) bool {
+	for _, w := range []string{"\\ ", "\\\t"} {
+		if strings.Contains(raw, w) {
+			return true
+		}
+	}
+	return false
+}
 
 // tokenDiffSig names the root cause of the first difference as narrowly as
 // the token streams allow: which separator the original had between the
@@ -450,23 +462,45 @@ func tokenDiffSig(oi, mi []item, k int) string {
 		}
 		return gapName(its[i])
 	}
-	if k < len(oi) && k < len(mi) {
-		o, m := oi[k].tok, mi[k].tok
-		if (o.Kind == tURL || o.Kind == tBadURL) && strings.Contains(o.Raw, "/*") {
+	if k < len(oi) {
+		if o := oi[k].tok; (o.Kind == tURL || o.Kind == tBadURL) && strings.Contains(o.Raw, "/*") {
 			return "unquoted url() containing /* is treated as a comment start"
 		}
-		if k+1 < len(oi) && len(m.Raw) > len(o.Raw) && strings.HasPrefix(m.Raw, o.Raw) {
-			// the original's tokens k and k+1 came out as one token
-			g := oi[k+1]
-			switch {
-			case g.gapWS && endsWithEscape(o.Raw):
-				return sigAfterEscape
-			case g.gapComment && !g.gapWS:
-				return "tokens merged: a comment was their only separator"
-			case g.gapWS:
-				rs := []rune(o.Raw)
-				return fmt.Sprintf("tokens merged: whitespace dropped after %q before %s", string(rs[len(rs)-1]), g.tok.short())
-			}
+	}
+	if k < len(oi) && k < len(mi) {
+		o, m := oi[k].tok, mi[k].tok
+		if o.Kind == m.Kind && o.Kind != tString && hasEscapedWhitespace(o.Raw) {
+			return sigAfterEscape
+		}
+	}
+	// did the original's tokens j and j+1 come out as one token? (j = k, or
+	// j = k-1 when the merged token still compares equal, e.g. 0/**/0 -> 00)
+	mergedAt := func(j int) bool {
+		if j < 0 || j+1 >= len(oi) || j >= len(mi) {
+			return false
+		}
+		o, m := oi[j].tok, mi[j].tok
+		if m.Raw == o.Raw+oi[j+1].tok.Raw {
+			return true
+		}
+		if len(m.Raw) > len(o.Raw) && strings.HasPrefix(m.Raw, o.Raw) {
+			return true
+		}
+		return o.Val != "" && len(m.Val) > len(o.Val) && strings.HasPrefix(m.Val, o.Val)
+	}
+	for _, j := range []int{k, k - 1} {
+		if !mergedAt(j) {
+			continue
+		}
+		o, g := oi[j].tok, oi[j+1]
+		switch {
+		case (g.gapWS || g.gapComment) && endsWithEscape(o.Raw):
+			return sigAfterEscape
+		case g.gapComment && !g.gapWS:
+			return "tokens merged: a comment was their only separator"
+		case g.gapWS:
+			rs := []rune(o.Raw)
+			return fmt.Sprintf("tokens merged: whitespace dropped after %q before %s", string(rs[len(rs)-1]), g.tok.short())
 		}
 	}
 	return fmt.Sprintf("tokens orig=%s[%s]%s[%s]%s min=%s", desc(oi, k-1), gap(oi, k), desc(oi, k), gap(oi, k+1), desc(oi, k+1), desc(mi, k))
